@@ -566,7 +566,8 @@ def gen_ops(rng, nobj, nops, cfg, weights=None):
         elif k == "pop":
             ops.append({"op": "pop", "obj": rng.randrange(cur), "pos": None if rng.random() < 0.5 else rng.random(), "negative": rng.random() < 0.4})
         elif k == "translate":
-            ops.append({"op": "translate", "obj": rng.randrange(cur), "delta": [rng.uniform(-3, 3) for _ in range(3)]})
+            ops.append({"op": "translate", "obj": rng.randrange(cur), "delta": [rng.uniform(-3, 3) for _ in range(3)] if rng.random() < 0.85 else
+                        [rng.choice([0.0, -150.25, 1234.5, -99.9999995, 999.9999996, -12345.678901]) for _ in range(3)]})
         elif k == "extend":
             mode = rng.choice(["default", "default", "map", "map", "repeat"])
             ops.append({"op": "extend", "obj": rng.randrange(cur), "other": rng.randrange(cur), "mode": mode,
